@@ -63,6 +63,8 @@ func entryTermFor(key string) string {
 			return "T_" + f + "_n"
 		case parts[2] == "t":
 			return "T_" + f + "_time"
+		case parts[2] == "f":
+			return "T_" + f + "_fails"
 		case strings.HasPrefix(parts[2], "r"):
 			return "T_" + f + "_" + parts[2]
 		default:
